@@ -79,6 +79,23 @@ def run(res, tier, rng):
                                       input=dict(url=base, variant=v, strip_suffix=ss, platform_aware=pa), impl=[fb, fv])
                     else:
                         nontriv.add(v)
+                # redirect-carrying urls: the letter case of the whole url is irrelevant there too
+                if i % 4 == 0:
+                    import urllib.parse as UP
+                    tgt = UP.quote(base if "://" in base else "http://" + base, safe="")
+                    for wrapper in ("http://r.com/?url=" + tgt, "https://www.google.com/url?sa=t&q=" + tgt, "http://r.com/login?next=" + tgt + "&x=1",
+                                    "https://l.facebook.com/l.php?u=" + tgt + "&h=AT0"):
+                        fw = call(fingerprint_url, wrapper, strip_suffix=ss, platform_aware=pa)
+                        if not pa:
+                            cases_for_model.append((wrapper, ss))
+                        for flip in (wrapper.upper(), wrapper.swapcase(), "".join(c.upper() if rng.random() < 0.5 else c for c in wrapper)):
+                            res.evaluations += 1
+                            ff = call(fingerprint_url, flip, strip_suffix=ss, platform_aware=pa)
+                            if ff != fw:
+                                res.violation("property", "a case flip of a redirect-carrying url changes the fingerprint",
+                                              input=dict(url=wrapper, variant=flip, strip_suffix=ss, platform_aware=pa), impl=[fw, ff])
+                            else:
+                                nontriv.add(flip)
                 # shape: no scheme, userinfo, port
                 sp = call(fingerprint_url, base, strip_suffix=ss, platform_aware=pa, unsplit=False)
                 if not isinstance(sp, Exc):
@@ -125,7 +142,7 @@ def run(res, tier, rng):
     res.nontrivial = nontriv
     res.rule = ("structured base urls on hosts name.suffix / blog.name.suffix x every fingerprint-irrelevant transformation (C04 family; case flips; ports 1, 80, 443, 8080, 65535; language labels "
                 "'xx' / 'XX' / 'xx-YY' from the ISO-3166 table; gl / hl items at random positions; with strip_suffix a swap among bundled public suffixes of 1-3 labels) x strip_suffix x "
-                "platform_aware; shape of the result (no scheme / userinfo / port); negative case (non-country label kept); model vs implementation. Non-trivial = variants equal to their base.")
+                "platform_aware; case flips of redirect-carrying urls (?url=, google /url?q=, ?next=, l.facebook.com); shape of the result (no scheme / userinfo / port); negative case (non-country label kept); model vs implementation. Non-trivial = variants equal to their base.")
     res.sample(dict(url="https://fr-FR.facebook.com:8080/A?hl=fr&b=1", fingerprint=call(fingerprint_url, "https://fr-FR.facebook.com:8080/A?hl=fr&b=1"),
                     with_suffix_stripped=call(fingerprint_url, "https://fr-FR.facebook.com:8080/A?hl=fr&b=1", strip_suffix=True)))
     res.theorems = THEOREMS
